@@ -6,13 +6,13 @@
 (* (TRUE = the page break between figures restates paper size and margins).  *)
 (***************************************************************************)
 EXTENDS Naturals, Integers, Sequences, FiniteSets, TLC, Json, FigProps
-CONSTANTS NSet, LenSet, PlaceSet, BoolSet, KindSet, RestateGeometry,
+CONSTANTS NSet, LenSet, PlaceSet, BoolSet, KindSet, ReuseSet, RestateGeometry,
           SublineFollowsTitle     \* deviation flag: TRUE = the subline is shown on the pages page_title selects (FALSE: first page only)
 VARIABLES cfg, d, phase, p, part, out
 vars == <<cfg, d, phase, p, part, out>>
-Cfg0 == [n |-> 1, wl |-> 1, hl |-> 1, ptitle |-> "all", pfoot |-> "last", psrc |-> "last", title |-> FALSE, subline |-> FALSE, foot |-> FALSE, src |-> FALSE, kinds |-> <<>>]
+Cfg0 == [n |-> 1, wl |-> 1, hl |-> 1, ptitle |-> "all", pfoot |-> "last", psrc |-> "last", title |-> FALSE, subline |-> FALSE, foot |-> FALSE, src |-> FALSE, kinds |-> <<>>, reuse |-> FALSE]
 Init == cfg = Cfg0 /\ d = 1 /\ phase = "pick" /\ p = 1 /\ part = "break" /\ out = <<>>
-Pick == /\ phase = "pick" /\ d <= 11
+Pick == /\ phase = "pick" /\ d <= 12
         /\ CASE d = 1 -> \E v \in NSet : cfg' = [cfg EXCEPT !.n = v] /\ d' = 2
              [] d = 2 -> \E v \in LenSet : cfg' = [cfg EXCEPT !.wl = v] /\ d' = 3
              [] d = 3 -> \E v \in LenSet : cfg' = [cfg EXCEPT !.hl = v] /\ d' = 4
@@ -25,8 +25,11 @@ Pick == /\ phase = "pick" /\ d <= 11
              [] d = 10 -> \E v \in (IF cfg.src THEN PlaceSet ELSE {"last"}) : cfg' = [cfg EXCEPT !.psrc = v] /\ d' = 11
              [] d = 11 -> IF Len(cfg.kinds) >= cfg.n THEN cfg' = cfg /\ d' = 12
                           ELSE \E v \in KindSet : cfg' = [cfg EXCEPT !.kinds = Append(@, v)] /\ d' = 11
+             \* reuse: an earlier document of the same process embedded OTHER image bytes from the same paths (files
+             \* rewritten in place, same time stamp); images are read when the document is encoded, not remembered
+             [] d = 12 -> \E v \in ReuseSet : cfg' = [cfg EXCEPT !.reuse = v] /\ d' = 13
         /\ UNCHANGED <<phase, p, part, out>>
-Start == phase = "pick" /\ d = 12 /\ phase' = "emit" /\ UNCHANGED <<cfg, d, p, part, out>>
+Start == phase = "pick" /\ d = 13 /\ phase' = "emit" /\ UNCHANGED <<cfg, d, p, part, out>>
 \* abstract sizes: figure i has pixel size (10 i, 10 i + 1); width list entry j is 100 j twips, height 200 j
 Ev(k, i) == [k |-> k, p |-> p, i |-> i, fmt |-> IF k = "pict" THEN cfg.kinds[i] ELSE "",
              picw |-> IF k = "pict" THEN 10 * i ELSE 0, pich |-> IF k = "pict" THEN 10 * i + 1 ELSE 0,
